@@ -19,6 +19,7 @@ CHECKS = {
     "C14": "c14",
     "C16": "c16",
     "C17": "c17",
+    "C18": "c18",
     "C06": "pprops",
     "C07": "c07",
     "C08": "c08",
